@@ -9,6 +9,7 @@ import (
 	"context"
 	"fmt"
 	"os"
+	"path/filepath"
 	"runtime"
 	"runtime/pprof"
 	"sort"
@@ -307,11 +308,16 @@ func (w *world) startMember(idx int, initPeers []peer.ID, staging bool, base str
 		rcfg.RaftConfig.TrailingLogs = 0
 	}
 	rcfg.DataFolder = base + "/raft"
+	if w.snap {
+		// (the same folder written with a trailing separator: legal, and it
+		// names the same directory everywhere)
+		rcfg.DataFolder = base + "/raft/"
+	}
 	// every backup slot is already taken by an older, non-empty backup (a
 	// peer whose data was cleaned before): discarding the data of a removed
 	// peer that holds a snapshot must still work (the oldest backup goes)
 	rcfg.BackupsRotate = 1
-	if old := rcfg.DataFolder + ".old.0"; !exists(old) {
+	if old := filepath.Clean(rcfg.DataFolder) + ".old.0"; !exists(old) {
 		os.MkdirAll(old+"/snapshots", 0o700)
 		os.WriteFile(old+"/raft.db", []byte("older backup"), 0o600)
 	}
